@@ -30,12 +30,17 @@ func c14(out string) {
 	w.liveCases()
 	w.handshakeCases()
 	w.crossProcessCases()
+	hammerCases(sink, hutil.NewRng(1414), thorough)
 	sink.Meta["config"] = configName()
 	sink.Meta["network_id"] = fmt.Sprintf("%#x", uint64(config.NETWORK_ID))
 	sink.Meta["rule"] = "bitcrypto.Cipher directly (layout; every bit of nonce/ciphertext/tag of sampled boxes flipped; every truncation length; extensions; other key; swapped nonce), " +
 		"p2p.Handshake codec on complete inputs, and live p2p.P2P endpoints over loopback TCP with a relay that records the sender's frames and replays a script to the receiver " +
 		"(untouched; every single bit of two frames flipped; every truncation; extensions; missing/changed length prefix; nonce swap; frames of another node pair, of an earlier connection, of the opposite direction; replay/reorder/drop; frame-limit boundary), " +
 		"handshake refusals (self, duplicate id, outdated version, low-order key), a connection to a child process of the same build and, under testnet, of the unittest build. " +
+		"Concurrent senders (hammer.go): fresh connections between two live endpoints, 1-4 (burst rounds) or 8-16 (heavy rounds) goroutines calling SendPacket of the same " +
+		"connection from the moment NewConnections fires (the Writer goroutine and the peer-list goroutine of connectionMainHandling are writing then), both directions at once, " +
+		"payloads of 1 byte .. 400 000 bytes, over a direct loopback socket, over small socket buffers with a pausing consumer of PacketsIn, and through a pipe that forwards in " +
+		"small reads with pauses and records the stream cut at the length prefixes; observed: what came out of the peer's PacketsIn in order, whether the connection survived, the frames on the wire. " +
 		"A class is (generator, shape, outcome of the implementation)."
 	if err := sink.Close(); err != nil {
 		panic(err)
@@ -634,40 +639,9 @@ func (w *world) liveCases() {
 	}
 
 	// --- every truncation of a frame
-	{
-		sizes := []int{4, 11, 2}
-		target := 2
-		blen := 12 + 2 + sizes[target-1] + 16
-		for cut := 1; cut <= blen; cut++ {
-			for variant := 0; variant < 3; variant++ {
-				cut, variant := cut, variant
-				pk := make([]pkt, len(sizes))
-				for i, n := range sizes {
-					pk[i] = pkt{Type: uint16(1 + i), Data: rng.Bytes(n)}
-				}
-				name := []string{"prefix-kept", "prefix-adjusted", "then-eof"}[variant]
-				w.run(scenario{class: "truncate/" + name, sent: pk, build: func(s *sctx, nsent int) []item {
-					out := s.frames(0, 0, target)
-					f := s.f(0, target)
-					cut := cut
-					if cut > len(f.raw)-4 {
-						cut = len(f.raw) - 4
-					}
-					body := f.raw[4 : len(f.raw)-cut]
-					h := f.hdr
-					if variant == 1 {
-						h -= uint32(cut)
-					}
-					out = append(out, s.hdr(h))
-					if len(body) > 0 {
-						out = append(out, s.junk(body))
-					}
-					if variant == 2 {
-						return out
-					}
-					return append(out, s.frames(0, target+1, nsent+2)...)
-				}})
-			}
+	for cut := 1; cut <= truncBodyLen; cut++ {
+		for variant := 0; variant < 3; variant++ {
+			w.truncateCase(cut, variant)
 		}
 	}
 
@@ -759,6 +733,52 @@ func (w *world) liveCases() {
 			w.run(sc)
 		}
 	}
+}
+
+var truncSizes = []int{4, 11, 2}
+
+const truncTarget = 2
+
+var truncBodyLen = 12 + 2 + truncSizes[truncTarget-1] + 16
+
+// truncateCase: the second data frame loses its last cut bytes; variant 0 keeps the length prefix (the receiver reads
+// into the next frame), 1 adjusts it, 2 ends the stream there
+func (w *world) truncateCase(cut, variant int) {
+	sizes, target := truncSizes, truncTarget
+	pk := make([]pkt, len(sizes))
+	for i, n := range sizes {
+		pk[i] = pkt{Type: uint16(1 + i), Data: w.rng.Bytes(n)}
+	}
+	name := []string{"prefix-kept", "prefix-adjusted", "then-eof"}[variant]
+	w.run(scenario{class: "truncate/" + name, sent: pk, build: func(s *sctx, nsent int) []item {
+		out := s.frames(0, 0, target)
+		f := s.f(0, target)
+		cut := cut
+		if cut > len(f.raw)-4 {
+			cut = len(f.raw) - 4
+		}
+		body := f.raw[4 : len(f.raw)-cut]
+		h := f.hdr
+		if next := s.f(0, target+1).raw; variant == 0 && cut <= len(next) && bytes.Equal(next[:cut], f.raw[len(f.raw)-cut:]) {
+			// the bytes that follow happen to be the bytes that were cut off (1 in 256 for a cut of one byte: the tag
+			// ends in the low byte of the next length prefix). What is on the wire is then the intact frame, followed
+			// by a frame that lost its first bytes: describe it as that
+			out = s.frames(0, 0, target+1)
+			out = append(out, s.junk(next[cut:]))
+			return append(out, s.frames(0, target+2, nsent+2)...)
+		}
+		if variant == 1 {
+			h -= uint32(cut)
+		}
+		out = append(out, s.hdr(h))
+		if len(body) > 0 {
+			out = append(out, s.junk(body))
+		}
+		if variant == 2 {
+			return out
+		}
+		return append(out, s.frames(0, target+1, nsent+2)...)
+	}})
 }
 
 // ---------------------------------------------------------------- handshake refusals
